@@ -86,6 +86,7 @@ func ruleC11(c *Check) {
 	c.queueDeleters("C11")
 	c.moduleServicePath("C11.6")
 	c.expiredBatchBinding("C11.3")
+	c.moduleWiring("C11.8", map[string]bool{"endblock": true})
 }
 
 func ruleC12(c *Check) {
@@ -98,6 +99,8 @@ func ruleC12(c *Check) {
 	c.expiryScanGuard("C12.3")
 	// "otherwise when its expiry block ends, and never earlier": the batch expiry is queued at the height its requests expire
 	c.heightSkeletons("C12.3")
+	// a batch that is opened, with or without requests, is completed (and its callback made) at its expiry: the expiry is queued on every path that opens one
+	c.newBatchRules("C12", map[string]bool{"running-no-successor": true, "issue-without-expiry": true})
 	c.startRules("C12")
 }
 
